@@ -1,6 +1,7 @@
 package simple
 
 import (
+	"bytes"
 	"context"
 	"fmt"
 	"sync"
@@ -70,6 +71,12 @@ func (o *simpleAccessController) CanAppend(e logac.LogEntry, p identityprovider.
 	identity := e.GetIdentity()
 	if identity == nil {
 		return fmt.Errorf("entry has no identity")
+	}
+
+	// the entry must be signed with the key of the identity it names: the log only
+	// verifies the signature against the entry's own key field
+	if keyed, ok := e.(interface{ GetKey() []byte }); !ok || !bytes.Equal(keyed.GetKey(), identity.PublicKey) {
+		return fmt.Errorf("entry key does not match the public key of its identity")
 	}
 
 	for _, id := range o.allowedKeys["write"] {
